@@ -1,16 +1,16 @@
 #!/usr/bin/env python3
-"""one-off: import the confirmed round-6 material from /tmp/seed6 (b1/b2 -> seeded/Cxxk, Cxxl; r1/r2 -> selftest/refactor/Cxxr10, Cxxr11)"""
+"""one-off: import the confirmed round-7 material from /tmp/seed7 (b1/b2 -> seeded/Cxxm, Cxxn; r1/r2 -> selftest/refactor/Cxxr12, Cxxr13)"""
 import json, os, shutil, sys
-ROOT = '/tmp/seed6'; V = '/verif'
+ROOT = '/tmp/seed7'; V = '/verif'
 titles = {}
 for l in open(f'{V}/properties.jsonl'):
     o = json.loads(l); titles[o['id']] = o['title']
 rep = []
 # confirmed mechanically (the agent's demonstration fails with the patch) but not a violation of the property as stated: see DESIGN §20
-REJECT = {('C18', 'b1'): 'changes getPathName / getParentDirectory only for paths written with a trailing separator; name and parent of join(d, n) for a separator-free n - the relation C18 states - are unchanged'}
+REJECT = {}
 for i in range(1, 21):
     cid = f'C{i:02d}'
-    for x, suf in (('b1', 'k'), ('b2', 'l')):
+    for x, suf in (('b1', 'm'), ('b2', 'n')):
         o = f'{ROOT}/{cid}/out/{x}'
         cj = f'{o}/confirm.json'
         if (cid, x) in REJECT: rep.append((cid, x, 'REJECTED: ' + REJECT[(cid, x)])); continue
@@ -21,15 +21,15 @@ for i in range(1, 21):
         for fn in ('patch.diff', 'demo.cpp', 'NOTES.md'):
             if os.path.exists(f'{o}/{fn}'): shutil.copy(f'{o}/{fn}', f'{d}/{fn}')
         notes = open(f'{o}/NOTES.md').read() if os.path.exists(f'{o}/NOTES.md') else ''
-        meta = dict(id=f'{cid}{suf}', property=cid, property_title=titles[cid], round=6,
-                    origin='independent sub-agent (sixth round) given only the property text and a scratch worktree of /repo (HEAD 382fd35); nothing from /verif; b1 = two cooperating edits, b2 = rarely taken path',
+        meta = dict(id=f'{cid}{suf}', property=cid, property_title=titles[cid], round=7,
+                    origin='independent sub-agent (seventh round) given only the property text and a scratch worktree of /repo (HEAD 382fd35); nothing from /verif; b1 = a modernisation whose semantics differ subtly, b2 = hardening in the wrong place',
                     needs_to_manifest=' '.join(notes.split())[:900],
-                    confirmed_by_me=dict(how='selftest/confirm_seed.sh (SEEDROOT=/tmp/seed6) in the scratch worktree: apply patch, cmake+ninja build, ctest (11 executables), demo built against the patched tree fails, demo built against an unpatched baseline passes twice',
+                    confirmed_by_me=dict(how='selftest/confirm_seed.sh (SEEDROOT=/tmp/seed7) in the scratch worktree: apply patch, cmake+ninja build, ctest (11 executables), demo built against the patched tree fails, demo built against an unpatched baseline passes twice',
                                          patched_build_rc=c['build_rc'], patched_ctest_rc=c['ctest_rc'], demo_exit_codes_with_patch=c['demo_with_patch_rcs'].split(), demo_exit_codes_without_patch=c['demo_without_patch_rcs'].split()),
                     detected_by='see selftest/RESULTS.json (written by selftest/run_corpus.py)')
         json.dump(meta, open(f'{d}/meta.json', 'w'), indent=1)
         rep.append((cid, x, 'imported as ' + meta['id']))
-    for x, suf in (('r1', 'r10'), ('r2', 'r11')):
+    for x, suf in (('r1', 'r12'), ('r2', 'r13')):
         o = f'{ROOT}/{cid}/out/{x}'
         cj = f'{o}/confirm.json'
         if not os.path.exists(cj): rep.append((cid, x, 'no confirm.json')); continue
@@ -37,7 +37,7 @@ for i in range(1, 21):
         if not c.get('ok'): rep.append((cid, x, f'NOT CONFIRMED {c}')); continue
         shutil.copy(f'{o}/patch.diff', f'{V}/selftest/refactor/{cid}{suf}.diff')
         notes = open(f'{o}/NOTES.md').read() if os.path.exists(f'{o}/NOTES.md') else ''
-        json.dump(dict(id=f'{cid}{suf}', written_for=cid, kind='behaviour-preserving refactoring (sub-agent, sixth round: data-representation changes and helper extraction)', summary=' '.join(notes.split())[:700],
+        json.dump(dict(id=f'{cid}{suf}', written_for=cid, kind='behaviour-preserving refactoring (sub-agent, seventh round: modernisation (standard algorithms / ranges, vocabulary types))', summary=' '.join(notes.split())[:700],
                        confirmed=dict(build_rc=c['build_rc'], ctest_rc=c['ctest_rc'])), open(f'{V}/selftest/refactor/{cid}{suf}.json', 'w'), indent=1)
         rep.append((cid, x, f'imported as refactor:{cid}{suf}'))
 for r in rep: print(*r)
